@@ -534,8 +534,9 @@ class World(object):
             elif k == "f_sequence":
                 r = mf.f_sequence([go(x) for x in e[1:]])
             elif k == "f_traverse":
-                fn = self.fn(sub + ".tfn", e[1])
-                r = mf.f_traverse(fn, list(e[2]))
+                fn = self.fn(name + ".tfn", e[1])
+                xs = list(e[2])
+                r = mf.f_traverse(fn, iter(xs) if len(e) > 3 and e[3] == "iter" else xs)
             elif k in ("f_map", "f_flat_map"):
                 inner = go(e[1])
                 r = getattr(mf, k)(inner, self.fn(sub + ".fn", e[2]), self.fn(sub + ".err", e[3] if len(e) > 3 else None))
@@ -654,7 +655,9 @@ class World(object):
                     out["exc"] = jsonable(ex)
                     out["exc_id"] = id(ex)
                 else:
-                    out["value"] = jsonable(f.result(0))
+                    v = f.result(0)
+                    out["value"] = jsonable(v)
+                    out["vtype"] = "tuple" if isinstance(v, tuple) else type(v).__name__
             return out
         if k == "wait":
             fs = [self.futs[n] for n in op[1]]
